@@ -18,6 +18,13 @@ pub struct AbortToken;
 pub struct SelfDeadlock {
   pub what: String,
 }
+/// Payload raised in monitor mode when a single-threaded run performs more lock
+/// operations than its budget: some loop spins (e.g. a producer polling
+/// is_subscribed() on a subscription that never ends).
+#[derive(Debug, Clone)]
+pub struct Livelock {
+  pub ops: u64,
+}
 /// Payload for "model and reality disagree" and similar harness faults.
 #[derive(Debug, Clone)]
 pub struct MachineryError(pub String);
@@ -235,6 +242,25 @@ fn set_ctx(c: Option<Ctx>) {
 pub fn monitor_mode() -> bool {
   MONITOR.with(|m| m.get())
 }
+thread_local! {
+  static MON_OPS: std::cell::Cell<u64> = const { std::cell::Cell::new(0) };
+}
+pub const MONITOR_OP_BUDGET: u64 = 2_000_000;
+/// called by the facade for every lock operation in monitor mode
+pub fn monitor_tick() {
+  let n = MON_OPS.with(|c| {
+    let n = c.get() + 1;
+    c.set(n);
+    n
+  });
+  if n > MONITOR_OP_BUDGET && !std::thread::panicking() {
+    MON_OPS.with(|c| c.set(0));
+    std::panic::panic_any(Livelock { ops: n });
+  }
+}
+pub fn monitor_reset_ops() {
+  MON_OPS.with(|c| c.set(0));
+}
 pub fn set_monitor_mode(on: bool) {
   MONITOR.with(|m| m.set(on));
 }
@@ -262,6 +288,8 @@ pub fn payload_to_string(p: &(dyn Any + Send)) -> String {
     s.clone()
   } else if let Some(s) = p.downcast_ref::<SelfDeadlock>() {
     format!("SelfDeadlock: {}", s.what)
+  } else if let Some(s) = p.downcast_ref::<Livelock>() {
+    format!("Livelock: more than {} lock operations in one single-threaded run", s.ops)
   } else if let Some(s) = p.downcast_ref::<MachineryError>() {
     format!("MachineryError: {}", s.0)
   } else if p.downcast_ref::<AbortToken>().is_some() {
@@ -1115,7 +1143,7 @@ pub fn install_quiet_panic_hook() {
         return;
       }
       let p = info.payload();
-      if p.downcast_ref::<AbortToken>().is_some() || p.downcast_ref::<SelfDeadlock>().is_some() {
+      if p.downcast_ref::<AbortToken>().is_some() || p.downcast_ref::<SelfDeadlock>().is_some() || p.downcast_ref::<Livelock>().is_some() {
         return;
       }
       prev(info);
